@@ -14,3 +14,4 @@ import ShkModel.Props.C16
 import ShkModel.Props.C19
 import ShkModel.Props.C12
 import ShkModel.Props.C13
+import ShkModel.Props.C15
